@@ -22,6 +22,9 @@ func c03Gen(r *Rand, tier string, scale int, emit func(Fields)) {
 		if n%6 == 5 {
 			dspMakeReconnect(r, c) // Close() and Connect() issued during a slow foreground handler
 		}
+		if n%5 == 2 {
+			dspMakeBatch(c) // BATCH +ref, tagged and untagged lines interleaved, BATCH -ref
+		}
 		emit(c.encode())
 	}
 }
